@@ -180,8 +180,12 @@ def _mutation_wrapper(
     @wraps(method)
     def wrapped(*args, **kwargs):
         with MutationContext(module, method, attribute):
-            # This handles the case of an `EvolvableWrapper`
-            if attribute not in module.mutation_methods:
+            # Disabled mutation methods are no-ops. The module inside an `EvolvableWrapper`
+            # has its methods disabled (they are advertised by the wrapper instead) but must
+            # still execute them when the wrapper forwards the call.
+            if attribute not in module.mutation_methods and not getattr(
+                module, "_mutations_forwarded", False
+            ):
                 module.last_mutation_attr = None
                 module.last_mutation = None
                 return
@@ -712,6 +716,7 @@ class EvolvableWrapper(EvolvableModule):
         # Disable mutations in the wrapped module since these are
         # now handled by the wrapper
         module.disable_mutations()
+        module._mutations_forwarded = True
         self._wrapped = module
 
     @property
